@@ -123,9 +123,9 @@ func parseOutput(text string) (recs []string, nows []string) {
 			if err == nil {
 				xb = fmt.Sprintf("%08x", math.Float32bits(float32(x)))
 			}
-			recs = append(recs, fmt.Sprintf("hdr %s %s %s %s %s", f["aggMethod"], f["aggMethodNum"], parseDur(f["maxRetention"]), xb, f["archiveCount"]))
+			recs = append(recs, fmt.Sprintf("hdr %s %s %s %s %s text=%s", f["aggMethod"], f["aggMethodNum"], parseDur(f["maxRetention"]), xb, f["archiveCount"], f["maxRetention"]))
 		case strings.HasPrefix(line, "archiveInfo:"):
-			recs = append(recs, fmt.Sprintf("ainfo %s %s %s %s", f["archiveInfo"], parseDur(f["durationPerPoint"]), f["numberOfPoints"], f["offset"]))
+			recs = append(recs, fmt.Sprintf("ainfo %s %s %s %s text=%s", f["archiveInfo"], parseDur(f["durationPerPoint"]), f["numberOfPoints"], f["offset"], f["durationPerPoint"]))
 		case strings.HasPrefix(line, "err:"):
 			recs = append(recs, "missing "+f["srcOrDest"])
 		case strings.Contains(line, "\tsrcVal:"):
